@@ -524,7 +524,7 @@ class OutputVariable(Variable):
 
         # Locking previous values
         if self.lock_previous:
-            with np.nditer(value, op_flags=[["readwrite"]]) as iterator:
+            with np.nditer(value, flags=["zerosize_ok"], op_flags=[["readwrite"]]) as iterator:
                 previous_value = self.previous_value
                 for value_i in iterator:
                     if np.isnan(value_i):
